@@ -7,6 +7,11 @@
 //! (flavour 7, and flavour 1 with ps = 4096, are the crate's own `AtomicBitmap::with_len`).
 //!
 //! case:  hostmod nregions [start,size,ps,flavour + 16*rkind]*  step*      (each step one list token)
+//!   rkind 2..8: the region is made by one of the crate's OWN bitmap-creating constructors (the bitmap is `B::with_len(size)` made
+//!   INSIDE the crate): 2 MmapRegion::<B>::new(size)  3 MmapRegion::from_file(memfd, size)  4 MmapRegion::build(None, size, prot, flags)
+//!   5 MmapRegion::build_raw(own mmap)  (2..5: standard build; the Xen build has none of them and takes kind 0)
+//!   6 GuestRegionMmap::from_range(start, size, None | Some(memfd) by region index)  7 GuestMemoryMmap::<B>::from_ranges (one page size
+//!   for all regions)  8 GuestMemoryMmap::<B>::from_ranges_with_files (memfd for odd region indices)   (6..8: both builds)
 //!   rkind 0: the build's ordinary anonymous region; 1 (start a multiple of 4096): in the Xen build a grant region mapped in
 //!   advance, in the standard build the ordinary region again
 //!   step  [0, ri, opcode, a1, a2, a3, a4, nchain, (dop, x, y, z)*]   accessor derived from region ri, then one op
@@ -23,6 +28,10 @@
 //!               opcodes of the slice level (0 1 2 4 5 6 7 8 9 11 12 19) + 21 write_obj::<T> / 22 read_obj::<T> (size_of T = a1)
 //!         [7, ri, rk, rx, ry, rz, rj, doff, dlen, nchain, (dop, x, y, z)*]   as step 4, source chain from first accessor rk (not 3),
 //!               destination regs[rj].get_slice(MemoryRegionAddress(doff), dlen) (the region's own get_slice)
+//!         [8, ri, q, a]   QUERY, writes nothing: q 0 regs[ri].get_host_address(MemoryRegionAddress(a)) (count 1 when granted)
+//!               1 gm.get_host_address(GuestAddress(a)) (count 1)   2 regs[ri].as_ptr() + len() + bitmap() (count 0)
+//!   accessor opcodes 23 / 24 (steps 0 and 5, not root kind 3): `ptr_guard()` / `ptr_guard_mut()` of the accessor (slice, typed
+//!         reference or element array) taken, `as_ptr()` / `len()` read, and dropped: count = the accessor's len()
 //! obs:   per step  [ok,count,late]  then per region  [dirty bit per page, +2 margin]  [changed-byte runs o,n,...]
 //!
 //!   accessor opcode 6 (descriptor read) a4: 0 a file holding a3 bytes, 1 a write-only descriptor (EBADF, nothing
@@ -107,14 +116,8 @@ impl Bitmap for ArcBm {
 
 /// what the region constructor of the build needs from the bitmap type: the Xen constructor (`MmapRegion::from_range`) creates
 /// the bitmap itself through `NewBitmap::with_len(size)`
-#[cfg(feature = "xen")]
 trait FlBase: vm_memory::bitmap::NewBitmap {}
-#[cfg(feature = "xen")]
 impl<T: vm_memory::bitmap::NewBitmap> FlBase for T {}
-#[cfg(not(feature = "xen"))]
-trait FlBase: Bitmap {}
-#[cfg(not(feature = "xen"))]
-impl<T: Bitmap> FlBase for T {}
 
 /// page size `with_len` of the harness flavours uses (set from the case just before a region is constructed)
 static NEXT_PS: AtomicUsize = AtomicUsize::new(4096);
@@ -391,8 +394,8 @@ fn exec(case: &[Tok]) -> Vec<Tok> {
     let flavour = case[2].l()[3] as u64 % 16;
     match flavour {
         // Xen build: AtomicBitmap itself gets its page size from the host (NewBitmap::with_len)
-        #[cfg(feature = "xen")]
-        1 if case[2..2 + nreg].iter().any(|g| g.l()[2] != 4096) => run::<PlainBm>(case, nreg),
+        // ... and so it does in the standard build when the region comes from one of the crate's own constructors (rkind >= 2)
+        1 if (cfg!(feature = "xen") || case[2].l()[3] / 16 >= 2) && case[2..2 + nreg].iter().any(|g| g.l()[2] != 4096) => run::<PlainBm>(case, nreg),
         1 => run::<AtomicBitmap>(case, nreg),
         2 => run::<OptSome>(case, nreg),
         3 => run::<ArcBm>(case, nreg),
@@ -410,24 +413,60 @@ fn bad() -> Vec<Tok> {
 
 /// one tracked region of the case.  Standard build: MmapRegionBuilder::new_with_bitmap (the caller supplies the bitmap).
 #[cfg(not(feature = "xen"))]
-fn mk_region<B: Flavour>(start: u64, size: usize, ps: usize, _rkind: u64, _devfd: &mut Option<i32>) -> Option<GuestRegionMmap<B>> {
-    // (the region kind selects among the Xen mappings; this build has the one kind)
-    let r = MmapRegionBuilder::new_with_bitmap(size, B::make(size, ps))
-        .with_mmap_prot(libc::PROT_READ | libc::PROT_WRITE)
-        .with_mmap_flags(libc::MAP_ANONYMOUS | libc::MAP_PRIVATE | libc::MAP_NORESERVE)
-        .build()
-        .ok()?;
+fn mk_region<B: Flavour>(start: u64, size: usize, ps: usize, rkind: u64, idx: usize, _devfd: &mut Option<i32>, raw: &mut Vec<(usize, usize)>) -> Option<GuestRegionMmap<B>> {
+    use vm_memory::mmap::MmapRegion;
+    NEXT_PS.store(ps, Ordering::SeqCst);
+    let anon = libc::MAP_ANONYMOUS | libc::MAP_PRIVATE | libc::MAP_NORESERVE;
+    let rw = libc::PROT_READ | libc::PROT_WRITE;
+    let r = match rkind {
+        // the crate's own constructors: the bitmap is created inside (B::with_len(size))
+        2 => MmapRegion::<B>::new(size).ok()?,
+        3 => MmapRegion::<B>::from_file(memfd_of(size), size).ok()?,
+        4 => MmapRegion::<B>::build(None, size, rw, anon).ok()?,
+        5 => {
+            let len = size.div_ceil(4096) * 4096;
+            let p = unsafe { libc::mmap(std::ptr::null_mut(), len, rw, anon, -1, 0) };
+            if p == libc::MAP_FAILED {
+                return None;
+            }
+            raw.push((p as usize, len));
+            // SAFETY: p is a live private mapping of at least `size` bytes, unmapped by `run` after the regions are gone
+            unsafe { MmapRegion::<B>::build_raw(p as *mut u8, size, rw, anon) }.ok()?
+        }
+        6 => return from_range_of::<B>(start, size, idx),
+        // (0, and 1 = a Xen mapping kind: this build's ordinary region, the bitmap made by the harness)
+        _ => MmapRegionBuilder::new_with_bitmap(size, B::make(size, ps)).with_mmap_prot(rw).with_mmap_flags(anon).build().ok()?,
+    };
     GuestRegionMmap::new(r, GuestAddress(start)).ok()
+}
+/// a memfd of `size` bytes as a FileOffset at 0
+fn memfd_of(size: usize) -> vm_memory::FileOffset {
+    use std::os::fd::FromRawFd;
+    let fd = unsafe { libc::memfd_create(b"vmh-dirty\0".as_ptr() as *const libc::c_char, 0) };
+    assert!(fd >= 0);
+    assert!(unsafe { libc::ftruncate(fd, size as libc::off_t) } == 0);
+    vm_memory::FileOffset::new(unsafe { std::fs::File::from_raw_fd(fd) }, 0)
+}
+/// a memfd for odd `idx` (the from_range / from_ranges_with_files kinds pass idx + 1: regions 0, 2, .. are file-backed)
+fn file_of(idx: usize, size: usize) -> Option<vm_memory::FileOffset> {
+    if idx % 2 == 1 { Some(memfd_of(size)) } else { None }
+}
+/// rkind 6 (both builds): GuestRegionMmap::from_range
+fn from_range_of<B: Flavour>(start: u64, size: usize, idx: usize) -> Option<GuestRegionMmap<B>> {
+    GuestRegionMmap::<B>::from_range(GuestAddress(start), size, file_of(idx + 1, size)).ok()
 }
 /// Xen build: MmapRegion::<B>::from_range - the constructor creates the bitmap (B::with_len(size)); rkind 0 a Xen-UNIX range
 /// (MmapRange::new_unix), rkind 1 a grant range mapped in advance over the emulated gntdev
 #[cfg(feature = "xen")]
-fn mk_region<B: Flavour>(start: u64, size: usize, ps: usize, rkind: u64, devfd: &mut Option<i32>) -> Option<GuestRegionMmap<B>> {
+fn mk_region<B: Flavour>(start: u64, size: usize, ps: usize, rkind: u64, idx: usize, devfd: &mut Option<i32>, _raw: &mut Vec<(usize, usize)>) -> Option<GuestRegionMmap<B>> {
     use super::c17_xen::{dev_install, dev_memfd, dev_reset, file_offset_of};
     use vm_memory::mmap::{MmapRange, MmapRegion};
     NEXT_PS.store(ps, Ordering::SeqCst);
+    if rkind == 6 {
+        return from_range_of::<B>(start, size, idx);
+    }
     let range = match rkind {
-        0 => {
+        0 | 2..=5 => {
             let mut r = MmapRange::new_unix(size, None, GuestAddress(start));
             r.set_flags(libc::MAP_ANONYMOUS | libc::MAP_PRIVATE | libc::MAP_NORESERVE);
             r
@@ -456,17 +495,43 @@ fn run<B: Flavour + 'static>(case: &[Tok], nreg: usize) -> Vec<Tok> {
     let mut regions = Vec::new();
     // Xen build, grant regions: one emulated device (a memfd whose page i is guest page i) behind all of them
     let mut devfd: Option<i32> = None;
+    // mappings made by the harness itself for build_raw regions (rkind 5), unmapped at the end
+    let mut raw: Vec<(usize, usize)> = Vec::new();
+    let rkind0 = case[2].l()[3] as u64 / 16;
     for i in 0..nreg {
         let g = case[2 + i].l();
-        let (start, size, ps, rkind) = (g[0] as u64, g[1] as usize, g[2] as usize, g[3] as u64 / 16);
-        let gr = match mk_region::<B>(start, size, ps, rkind, &mut devfd) {
-            Some(x) => x,
-            None => return bad(),
-        };
+        let (start, size, ps) = (g[0] as u64, g[1] as usize, g[2] as usize);
         geos.push(Geo { start, size, ps });
-        regions.push(gr);
     }
-    let gm = match GuestMemoryMmap::from_regions(regions) {
+    let gm = if rkind0 == 7 || rkind0 == 8 {
+        // the whole collection through the crate's own constructors; every region's bitmap is B::with_len(size) made inside
+        if rkind0 == 7 {
+            if geos.iter().any(|g| g.ps != geos[0].ps) {
+                return bad();
+            }
+            NEXT_PS.store(geos[0].ps, Ordering::SeqCst);
+            let v: Vec<(GuestAddress, usize)> = geos.iter().map(|g| (GuestAddress(g.start), g.size)).collect();
+            GuestMemoryMmap::<B>::from_ranges(&v)
+        } else {
+            // the constructor builds the regions one by one while it walks the iterator: the page size of region i is
+            // announced when the iterator hands out item i
+            let it = geos.iter().enumerate().map(|(i, g)| {
+                NEXT_PS.store(g.ps, Ordering::SeqCst);
+                (GuestAddress(g.start), g.size, file_of(i + 1, g.size))
+            });
+            GuestMemoryMmap::<B>::from_ranges_with_files(it)
+        }
+    } else {
+        for (i, g) in geos.iter().enumerate() {
+            let rkind = case[2 + i].l()[3] as u64 / 16;
+            match mk_region::<B>(g.start, g.size, g.ps, rkind, i, &mut devfd, &mut raw) {
+                Some(x) => regions.push(x),
+                None => return bad(),
+            }
+        }
+        GuestMemoryMmap::from_regions(regions)
+    };
+    let gm = match gm {
         Ok(g) => g,
         Err(_) => return bad(),
     };
@@ -555,6 +620,25 @@ fn run<B: Flavour + 'static>(case: &[Tok], nreg: usize) -> Vec<Tok> {
                     }
                 }
             }
+            8 => {
+                let (ri, q, a) = (s[1] as usize, s[2], s[3]);
+                match q {
+                    1 => match gm.get_host_address(GuestAddress(a)) {
+                        Ok(p) => (!p.is_null(), 1),
+                        Err(_) => (false, 0),
+                    },
+                    _ if ri >= regs.len() => (false, 0),
+                    0 => match regs[ri].get_host_address(MemoryRegionAddress(a)) {
+                        Ok(p) => (!p.is_null(), 1),
+                        Err(_) => (false, 0),
+                    },
+                    2 => {
+                        let _ = (regs[ri].as_ptr(), GuestMemoryRegion::len(regs[ri]), regs[ri].start_addr(), regs[ri].bitmap().dirty_at(0));
+                        (true, 0)
+                    }
+                    _ => (false, 0),
+                }
+            }
             2 => {
                 if let Some(b) = regs.get(s[1] as usize).and_then(|r| r.bitmap().inner()) {
                     b.reset();
@@ -597,6 +681,9 @@ fn run<B: Flavour + 'static>(case: &[Tok], nreg: usize) -> Vec<Tok> {
         }
     }
     drop(gm);
+    for (p, len) in raw {
+        unsafe { libc::munmap(p as *mut libc::c_void, len) };
+    }
     if let Some(fd) = devfd {
         // the regions are gone (their grants unmapped through the emulated device): close the device
         unsafe { libc::close(fd) };
@@ -685,6 +772,9 @@ fn ref_rest<'a, T: ByteValued, S: BitmapSlice>(dst: &Option<VolatileSlice<'a, S>
         None => match op[0] {
             13 => { r.store(yval::<T>()); (true, std::mem::size_of::<T>() as u64) }
             14 => { let _ = r.load(); (true, std::mem::size_of::<T>() as u64) }
+            // a pointer guard taken, looked at and dropped: a query, writes nothing
+            23 => { let g = r.ptr_guard(); let _ = (g.as_ptr(), g.len()); drop(g); (true, r.len() as u64) }
+            24 => { let g = r.ptr_guard_mut(); let _ = (g.as_ptr(), g.len()); drop(g); (true, r.len() as u64) }
             _ => (false, 0),
         },
     }
@@ -714,6 +804,8 @@ fn arr_rest<'a, T: ByteValued, S: BitmapSlice>(dst: &Option<VolatileSlice<'a, S>
                     let mut buf: Vec<T> = (0..op[1] as usize).map(|_| yval::<T>()).collect();
                     (true, arr.copy_to(&mut buf) as u64)
                 }
+                23 => { let g = arr.ptr_guard(); let _ = (g.as_ptr(), g.len()); drop(g); (true, arr.len() as u64) }
+                24 => { let g = arr.ptr_guard_mut(); let _ = (g.as_ptr(), g.len()); drop(g); (true, arr.len() as u64) }
                 20 => match dst {
                     // VolatileArrayRef::copy_to_volatile_slice into the destination slice of the step
                     Some(d) => {
@@ -800,6 +892,8 @@ fn slice_op<'a, S: BitmapSlice>(dst: &Option<VolatileSlice<'a, S>>, s: &Volatile
             None => (false, 0),
         },
         21 | 22 => (false, 0),
+        23 => { let g = s.ptr_guard(); let _ = (g.as_ptr(), g.len()); drop(g); (true, s.len() as u64) }
+        24 => { let g = s.ptr_guard_mut(); let _ = (g.as_ptr(), g.len()); drop(g); (true, s.len() as u64) }
         _ => bytes_op(
             s,
             &|a| a,
@@ -1016,7 +1110,8 @@ fn gen_fault(rng: &mut Rng, tier: Tier, emit: &mut dyn FnMut(Vec<Tok>)) {
         let size = *rng.pick(&[4097u64, 4200, 8192, 8193, 12288, 16000, 20000]) + rng.below(3);
         let start = *rng.pick(&[0u64, 0x1000, 0x7fff_f000]);
         // Xen build: every third region is a grant region mapped in advance (the starts are page multiples)
-        let rkind = if xen && rng.chance(1, 3) { 1 } else { 0 };
+        // ... and in both builds regions that come from the crate's own bitmap-creating constructors (kinds 2..8)
+        let rkind = if xen { *rng.pick(&[0u64, 0, 1, 1, 6, 7, 8]) } else { *rng.pick(&[0u64, 0, 0, 2, 3, 4, 5, 6, 7, 8]) };
         let mut case = vec![n(0u8), n(1u8), Tok::of_u64s(&[start, size, ps, flavour + 16 * rkind])];
         for _ in 0..1 + rng.below(3) {
             // accessor: the region itself, a sub-slice, or an offset slice
@@ -1098,12 +1193,16 @@ fn gen(rng: &mut Rng, tier: Tier, emit: &mut dyn FnMut(Vec<Tok>)) {
     for _ in 0..ncases {
         let flavour = *rng.pick(&[1u64, 1, 5, 5, 6, 6, 2, 3, 4, 0, 7]);
         // Xen build: a third of the cases on grant regions mapped in advance (starts rounded up to page multiples)
-        let rkind = if xen && rng.chance(1, 3) { 1u64 } else { 0 };
+        // ... and in both builds regions made by the crate's own bitmap-creating constructors (kinds 2..8, see the header)
+        let rkind = if xen { *rng.pick(&[0u64, 0, 0, 1, 1, 1, 6, 7, 8]) } else { *rng.pick(&[0u64, 0, 0, 0, 2, 3, 3, 4, 5, 6, 7, 8]) };
+        let ps7 = *rng.pick(&[1u64, 7, 64, 4096]);
         let nreg = 1 + rng.below(3) as usize;
         let mut geos: Vec<(u64, u64, u64)> = Vec::new();
         let mut next = *rng.pick(&[0u64, 0x1000, 0x7fff_f000]);
         for _ in 0..nreg {
             let ps = *rng.pick(&[1u64, 2, 3, 7, 8, 64, 4096, 4096, 0]);
+            // from_ranges makes all the bitmaps in one call: one page size
+            let ps = if rkind == 7 { ps7 } else { ps };
             let ps = if flavour == 7 { 4096 } else { ps };
             let base_sizes = [1u64, 2, 5, 63, 64, 65, 130, 200];
             let (ps, size) = if ps == 0 {
@@ -1134,6 +1233,14 @@ fn gen(rng: &mut Rng, tier: Tier, emit: &mut dyn FnMut(Vec<Tok>)) {
                     let off = pick_near(rng, &[0, ps, size, size / 2]);
                     let len = pick_near(rng, &[0, 1, ps, size]);
                     case.push(Tok::of_u64s(&[3, ri, off, len]));
+                }
+                9 => {
+                    // queries that write nothing: host address of a region offset / a guest address, the region's raw pointer
+                    let (rstart, _, _) = geos[ri as usize];
+                    let q = rng.below(3);
+                    let off = pick_near(rng, &[0, size, size.saturating_sub(1), ps, size / 2, u64::MAX]);
+                    let a = if q == 1 { rstart.wrapping_add(off) } else { off };
+                    case.push(Tok::of_u64s(&[8, ri, q, a]));
                 }
                 5..=8 => {
                     // REGION layer (Bytes<MemoryRegionAddress>): every op code, in and out of range, short sources
@@ -1324,15 +1431,16 @@ fn gen(rng: &mut Rng, tier: Tier, emit: &mut dyn FnMut(Vec<Tok>)) {
                         continue;
                     }
                     let (code, a1, a2, a3, a4) = match kind {
-                        1 => (*rng.pick(&[13u64, 13, 14]), 0, 0, 0, 0),
+                        1 => (*rng.pick(&[13u64, 13, 14, 23, 24, 24]), 0, 0, 0, 0),
                         2 => {
-                            let code = *rng.pick(&[15u64, 15, 16, 17, 17, 18]);
-                            let a1 = if code <= 16 { if nel > 0 { rng.below(nel) } else { 0 } } else { pick_near(rng, &[nel, nel / 2, 0, nel + 3]).min(3000) };
+                            let code = *rng.pick(&[15u64, 15, 16, 17, 17, 18, 23, 24]);
+                            let a1 = if code >= 23 { 0 } else if code <= 16 { if nel > 0 { rng.below(nel) } else { 0 } } else { pick_near(rng, &[nel, nel / 2, 0, nel + 3]).min(3000) };
                             (code, a1, 0, 0, 0)
                         }
                         _ => {
-                            let code = *rng.pick(&[0u64, 0, 1, 1, 2, 3, 3, 4, 5, 6, 6, 7, 8, 9, 10, 11, 12, 19, 19]);
+                            let code = *rng.pick(&[0u64, 0, 1, 1, 2, 3, 3, 4, 5, 6, 6, 7, 8, 9, 10, 11, 12, 19, 19, 23, 24]);
                             match code {
+                                23 | 24 => (code, 0, 0, 0, 0),
                                 2 | 9 => {
                                     let sz = *rng.pick(&[1u64, 2, 4, 8]);
                                     let a = pick_near(rng, &[0, len.saturating_sub(sz), ps, len / 2]);
@@ -1369,6 +1477,8 @@ fn gen(rng: &mut Rng, tier: Tier, emit: &mut dyn FnMut(Vec<Tok>)) {
                             }
                         }
                     };
+                    // (a pointer guard behind gm.get_slice is not a step kind: take the same accessor from the region)
+                    let root = if rk == 3 && code >= 23 { [2, root[1].wrapping_sub(rstart), root[2], 0] } else { root };
                     let mut st = if rk == 0 { vec![0, ri, code, a1, a2, a3, a4, nch] } else { vec![5, ri, root[0], root[1], root[2], root[3], code, a1, a2, a3, a4, nch] };
                     st.extend_from_slice(&chain);
                     case.push(Tok::of_u64s(&st));
